@@ -128,16 +128,17 @@ SPECIAL = {
     "outpointValue": [0, -1, 2 ** 64, 2 ** 64 - 1, 1, 1.0, True, "1", None],
     "sighashComputationMode": ["Legacy", "SEGWIT", "", "taproot", 0, None, "legacy ", " segwit",
                                "LEGACY", "Segwit", "legacy\u0000"],
-    "hash": ["00" * 31, "00" * 33, "zz" * 32, "0x" + "00" * 31, "", 5, None, ("00 " * 32).strip()],
-    "udValue": ["00" * 15, "00" * 17, "00" * 16, "00" * 32, "gg" * 16, "", 7, None],
-    "tx": ["", "aabbcc", "zz", 5, None, "0100000001" + "00" * 36 + "00" + "ffffffff" + "00" + "00000000"],
-    "receipt": ["", "zz", 5, None, []],
-    "receipt_merkle_proof": [[], "00", None, [""], ["zz"], [5], [[]], {}],
+    "hash": ["0" * 63, "abc", "00" * 31, "00" * 33, "zz" * 32, "0x" + "00" * 31, "", 5, None, ("00 " * 32).strip()],
+    "udValue": ["0" * 31, "0" * 63, "00" * 15, "00" * 17, "00" * 16, "00" * 32, "gg" * 16, "", 7, None],
+    "tx": ["abc", "0", "", "aabbcc", "zz", 5, None, "0100000001" + "00" * 36 + "00" + "ffffffff" + "00" + "00000000"],
+    "receipt": ["", "zz", 5, None, [], "abc", "0", "00f"],
+    "receipt_merkle_proof": [[], "00", None, [""], ["zz"], [5], [[]], {}, ["abc"], ["00", "0"]],
     "blocks": [[], None, "00", [5], [None], [[]], {}, ["00", 5]],
-    "brothers": [[], None, "00", [[]], [5], [["zz"]], [[""]], [[5]], [["00"]], [[], []], {}],
+    "brothers": [[], None, "00", [[]], [5], [["zz"]], [[""]], [[5]], [["00"]], [[], []], {},
+                 [["abc"]], [["0"]]],
     "message": [None, "hash", ["hash"], 5, {}, "00" * 32],
     "auth": [None, [], "x", 5, {}],
-    "witnessScript": ["", "zz", 5, None],
+    "witnessScript": ["", "zz", 5, None, "abc", "0", "00f"],
 }
 
 
